@@ -409,7 +409,7 @@ var vfSvcB2 = vfSvcSpec{full: "vf.B", file: "vfab.proto", reqName: "ReqB", metho
 // (from h_registry.go)
 func vfSpecsOfFile(file string) []vfSvcSpec {
 	var out []vfSvcSpec
-	for _, sp := range []vfSvcSpec{vfSvcA, vfSvcB, vfSvcA2, vfSvcB2, vfSvcP} {
+	for _, sp := range []vfSvcSpec{vfSvcA, vfSvcB, vfSvcA2, vfSvcB2, vfSvcP, vfSvcBad} {
 		if sp.file == file {
 			out = append(out, sp)
 		}
@@ -441,6 +441,12 @@ func vfFakeSvc(sp vfSvcSpec) *fakeSvc {
 	}
 	return svc
 }
+
+// vfSvcBad: a service whose HTTP rule names a field its request type does not have, so that
+// registering a backend that exposes it fails half-way.
+var vfSvcBad = vfSvcSpec{full: "vf.C", file: "vfc.proto", reqName: "ReqC", methods: []vfMethodSpec{
+	{name: "M1", verb: "GET", tmpl: "/v1/cc/{nofield}"},
+}}
 
 // vfSvcP: a backend service with one method of each streaming shape and no HTTP annotations
 // (reached through the implicit /vf.P/<Method> gRPC binding), for the proxy harness.
